@@ -551,7 +551,14 @@ class Interp:
             ret = prog.get("ret")
             if ret is not None:
                 if "raise" in ret:
+                    if "pad_to" in ret:
+                        base = len(json.dumps({"Status": "FAILED", "Error": {"ErrorMessage": "", "ErrorType": ret["raise"]}}))
+                        raise make_exc(ret["raise"], "x" * max(0, ret["pad_to"] - base))
                     raise make_exc(ret["raise"], ret.get("msg", "handler-boom"))
+                if "pad_to" in ret:
+                    out = {"r": [render(v) for v in vals], "pad": ""}
+                    out["pad"] = "x" * max(0, ret["pad_to"] - len(json.dumps(out)))
+                    return out
                 if "obj" in ret:
                     return object()
                 if "pad" in ret:
